@@ -318,9 +318,24 @@ func VerifC11Bytes() {
 // as deep as the decoder's cap.
 func VerifC11Nesting() {
 	n := nd.Param("depth")
-	form := nd.Concretize(nd.Choice(2))
+	form := nd.Concretize(nd.Choice(4))
 	var in []byte
 	switch form {
+	case 2, 3:
+		// messages embedded in messages (message/rfc822 or message/global)
+		typ := "\"RFC822\""
+		if form == 3 {
+			typ = "\"global\""
+		}
+		in = append(in, "* 1 FETCH (BODYSTRUCTURE "...)
+		for i := 0; i < n; i++ {
+			in = append(in, "(\"message\" "+typ+" NIL NIL NIL \"7bit\" 1 (NIL NIL NIL NIL NIL NIL NIL NIL NIL NIL) "...)
+		}
+		in = append(in, "(\"text\" \"plain\" NIL NIL NIL \"7bit\" 1 1)"...)
+		for i := 0; i < n; i++ {
+			in = append(in, " 1)"...)
+		}
+		in = append(in, ")\r\n"...)
 	case 0:
 		in = append(in, "* 1 FETCH (BODYSTRUCTURE "...)
 		for i := 0; i < n; i++ {
